@@ -63,7 +63,12 @@ func propC07(p *Prog, r *Report) {
 	}
 	X := dest.Name()
 	lockPath := X + ".m"
-	f := p.FlatOf(fi)
+	f := p.FlatInlExcept(fi, kStoreToTx)
+	// the destination store, under whatever name a spliced-in helper knows it
+	isDest := func(e ast.Expr) bool {
+		o := objOf(info, e)
+		return o != nil && f.CanonObj(o) == dest
+	}
 	// guard reads: nodes reading X.File(..).Latest() in the condition that controls ErrTxSerialization
 	checks := f.Match(func(n *GNode) bool {
 		if !n.IsCond {
@@ -72,7 +77,7 @@ func propC07(p *Prog, r *Report) {
 		found := false
 		ast.Inspect(n.Ast, func(x ast.Node) bool {
 			if c, ok := x.(*ast.CallExpr); ok && p.callIs(fi.Pkg, c, kTxFile) {
-				if sel, ok := c.Fun.(*ast.SelectorExpr); ok && objOf(info, sel.X) == dest {
+				if sel, ok := c.Fun.(*ast.SelectorExpr); ok && isDest(sel.X) {
 					found = true
 				}
 			}
@@ -88,7 +93,7 @@ func propC07(p *Prog, r *Report) {
 				if c, ok := x.(*ast.CallExpr); ok && p.callIs(fi.Pkg, c, kFileLatest) {
 					if sel, ok := c.Fun.(*ast.SelectorExpr); ok {
 						if fc, ok := ast.Unparen(sel.X).(*ast.CallExpr); ok && p.callIs(fi.Pkg, fc, kTxFile) {
-							if s2, ok := fc.Fun.(*ast.SelectorExpr); ok && objOf(info, s2.X) == dest {
+							if s2, ok := fc.Fun.(*ast.SelectorExpr); ok && isDest(s2.X) {
 								found = true
 							}
 						}
@@ -106,7 +111,7 @@ func propC07(p *Prog, r *Report) {
 			for c := range helpers {
 				if n.Ast.Pos() <= c.Pos() && c.End() <= n.Ast.End() {
 					for _, a := range c.Args {
-						if objOf(info, a) == dest {
+						if isDest(a) {
 							return true
 						}
 					}
@@ -117,11 +122,11 @@ func propC07(p *Prog, r *Report) {
 	}
 	pubs := f.Match(func(n *GNode) bool {
 		for _, c := range callsIn(n.Ast, false) {
-			if p.callIs(fi.Pkg, c, kStoreToTx) && len(c.Args) >= 1 && objOf(info, c.Args[0]) == dest {
+			if p.callIs(fi.Pkg, c, kStoreToTx) && len(c.Args) >= 1 && isDest(c.Args[0]) {
 				return true
 			}
 			if p.callIs(fi.Pkg, c, "(*internal/model/core.Transaction).PushBack") {
-				if sel, ok := c.Fun.(*ast.SelectorExpr); ok && objOf(info, sel.X) == dest {
+				if sel, ok := c.Fun.(*ast.SelectorExpr); ok && isDest(sel.X) {
 					return true
 				}
 			}
@@ -129,6 +134,10 @@ func propC07(p *Prog, r *Report) {
 		return false
 	})
 	cons := kUpdateTx + "#" + "dest-store"
+	if (len(checks) == 0 || len(pubs) == 0) && p.funcCallsDeep(fi, p.keysPred(kStoreToTx, "(*internal/model/core.Transaction).PushBack")) && p.funcCallsDeep(fi, p.keysPred(kTxFile)) {
+		r.Undecided("C07.a", cons+"/anchors", p.pos(fi.Decl), fmt.Sprintf("%d guard reads and %d publications into the destination store found in the function and its spliced-in helpers; further ones happen in helpers the rule cannot follow", len(checks), len(pubs)))
+		return
+	}
 	if len(checks) == 0 || len(pubs) == 0 {
 		r.Viol("C07.a", cons+"/anchors", p.pos(fi.Decl), fmt.Sprintf("%d guard reads and %d publications into the destination store found", len(checks), len(pubs)))
 		return
@@ -166,13 +175,13 @@ func propC07(p *Prog, r *Report) {
 	r.Check(!split, "C07.a", cons+"/split-region", p.pos(f.Nodes[checks[0]].Ast), "no release of "+lockPath+" between the conflict check and the publication",
 		"the lock of the destination store is released between the conflict check and the publication: two committers can both pass the check before either publishes, and both succeed", witness...)
 	// lock modes from the dataflow
-	lr := p.LockFlow(fi, nil)
+	evs := p.DeepLockEvents(fi, nil, 3)
 	for _, id := range pubs {
 		for _, c := range callsIn(f.Nodes[id].Ast, false) {
 			if !p.callIs(fi.Pkg, c, kStoreToTx, "(*internal/model/core.Transaction).PushBack") {
 				continue
 			}
-			hs, n := mustHeld(lr, c)
+			hs, n := heldAtAllN(evs, c)
 			r.Check(n > 0 && holdsMode(hs, lockPath, "W"), "C07.a", cons+"/write-held-at-publication", p.pos(c), "W("+lockPath+") held: "+heldString(hs),
 				"the publication into the destination store does not hold its write lock: held "+heldString(hs))
 		}
@@ -188,7 +197,7 @@ func propC07(p *Prog, r *Report) {
 			if !p.callIs(fi.Pkg, c, kTxFile) && !isHelper {
 				continue
 			}
-			hs, n := mustHeld(lr, c)
+			hs, n := heldAtAllN(evs, c)
 			r.Check(n > 0 && holdsMode(hs, lockPath, "R"), "C07.a", cons+"/held-at-check", p.pos(c), "lock held at the guard read: "+heldString(hs),
 				"the conflict guard reads the destination store without its lock: held "+heldString(hs))
 		}
@@ -210,4 +219,15 @@ func c07CommitOrder(p *Prog, r *Report, rule string) {
 	})
 	_ = strings.Join
 	_ = types.Typ
+}
+
+// heldAtAllN: the locks held at every event of the call (root-function terms) and the number of such events.
+func heldAtAllN(evs []*LockEvent, c *ast.CallExpr) ([]Held, int) {
+	n := 0
+	for _, e := range evs {
+		if e.Call == c && e.Kind == "call" {
+			n++
+		}
+	}
+	return heldAtAll(evs, c), n
 }
